@@ -204,7 +204,7 @@ type world struct {
 	handles map[int]*partitions.Partitions
 	broken  map[int]bool // objects left with Last aliasing a map slot by a failed DeleteTrieNode: not modelled further
 	allIDs  []string
-	maxIdx  int
+	maxLoc  int
 }
 
 func atoi(s string) (int, bool) {
@@ -252,6 +252,9 @@ func (w *world) exec(f []string) string {
 		}
 		w.handles[h] = p
 		delete(w.broken, h)
+		if l, _ := p.VerifLastLoc(); l > w.maxLoc {
+			w.maxLoc = l
+		}
 		return "ok"
 	}
 	if f[0] == "load" && len(f) == 3 {
@@ -266,6 +269,9 @@ func (w *world) exec(f []string) string {
 		}
 		w.handles[h] = p
 		delete(w.broken, h)
+		if l, _ := p.VerifLastLoc(); l > w.maxLoc {
+			w.maxLoc = l
+		}
 		return "ok"
 	}
 	if len(f) < 2 {
@@ -283,6 +289,9 @@ func (w *world) exec(f []string) string {
 		return "broken"
 	}
 	out := w.method(p, f)
+	if l, _ := p.VerifLastLoc(); l > w.maxLoc {
+		w.maxLoc = l // partition nodes are only ever written at an index <= the largest Last.Loc seen
+	}
 	if out == "err locdel" || out == "err partdel" {
 		w.broken[h] = true
 	}
@@ -452,7 +461,7 @@ func (w *world) method(p *partitions.Partitions, f []string) string {
 	case f[0] == "repair" && len(f) == 2:
 		return errClass(p.RepairPartitionLoc(w.sctx))
 	case f[0] == "dump" && len(f) == 2:
-		return dumpLine(p.VerifDump(w.sctx, w.allIDs, w.maxIdx))
+		return dumpLine(p.VerifDump(w.sctx, w.allIDs, w.maxLoc+2))
 	}
 	return "bad-op"
 }
@@ -465,7 +474,7 @@ func impl(ops []string) []string {
 		if err != nil {
 			panic(err)
 		}
-		w = &world{sctx: ew.SCtx(), handles: map[int]*partitions.Partitions{}, broken: map[int]bool{}, maxIdx: len(ops) + 2}
+		w = &world{sctx: ew.SCtx(), handles: map[int]*partitions.Partitions{}, broken: map[int]bool{}}
 		for i := 0; i < universe; i++ {
 			w.allIDs = append(w.allIDs, idName(i))
 		}
@@ -1096,7 +1105,7 @@ func main() {
 		ID: "C25", Model: "C25", Gen: gen, Impl: impl, Oracle: oracle,
 		Cases: func(th bool) int {
 			if th {
-				return 12000
+				return 8000
 			}
 			return 600
 		},
